@@ -147,12 +147,30 @@ pub fn header_words(b: &mut Bat, h: &Multiboot2Header) {
 
 /// Walk `iter()`; records (offset relative to the header base, type, flags, size, payload).
 pub fn walk(b: &mut Bat, h: &Multiboot2Header, hbase: *const u8, cap: usize) {
+    walk_opts(b, h, hbase, cap, false)
+}
+
+/// As `walk`; with `resume` the same iterator is asked twice more after a controlled panic (a caller that catches
+/// the unwind and goes on): those calls are bound by the same rules.
+pub fn walk_opts(b: &mut Bat, h: &Multiboot2Header, hbase: *const u8, cap: usize, resume: bool) {
     if let Out::Val(mut it) = b.ctx.call("iter", || h.iter()) {
         b.dbg("Debug(iter)", &it);
         for _ in 0..cap {
             match b.ctx.call("iter.next", || it.next()) {
                 Out::Panic => {
                     b.recs.push(Rec { name: "iter.next", val: Val::Panic });
+                    if resume {
+                        for _ in 0..2 {
+                            match b.ctx.call("iter.next-after-panic", || it.next()) {
+                                Out::Panic => b.recs.push(Rec { name: "iter.resumed", val: Val::Panic }),
+                                Out::Val(None) => {
+                                    b.recs.push(Rec { name: "iter.resumed", val: Val::E(0) });
+                                    break;
+                                }
+                                Out::Val(Some(t)) => b.recs.push(Rec { name: "iter.resumed", val: Val::S { off: rel(t, hbase), len: std::mem::size_of_val(t), hash: 0 } }),
+                            }
+                        }
+                    }
                     return;
                 }
                 Out::Val(None) => {
